@@ -564,6 +564,11 @@ def do_key(t):
         else:
             out = '-'
         toks.append(token(status, out, o, fields, sec))
+        if out == 'S' and (op == 'HdWif0' or (head in ('Wp', 'Hw') and not asks_private(decode_args(op[len(head):])))):
+            # the PUBLIC extended key (wif_public / wif without a request for the private form, whatever prefix) is a
+            # public export by itself: secret material in the returned text is a failing input, not only a difference
+            # from the model
+            leaks.append('%s:returned public export:%s' % (where, sec.find(blob_of(val))))
         default_export_leaks(o, sec, leaks, where)
         if is_public:
             public_view_leaks(o, sec, leaks, where)
